@@ -424,7 +424,7 @@ def decryptIpFlat (P : IpPrims) (ipText key mode : Bytes) : Res IpErr :=
       else .ok (P.showIp (ipcryptDec P key ip))
     | some .pfx =>
       if key.length ≠ 32 then .err (.key .pfx ip.isV4)
-      else if pfxKeyPanics key then .panic
+      else if pfxKeyPanics key then .err .pfxHalves
       else .ok (P.showIp (pfxIpDec P key ip))
 
 /-- the IPv4 and IPv6 arms of `decrypt_ip` do the same thing. -/
